@@ -561,10 +561,12 @@ class SigmaDetections:
         detections = {
             identifier: detection.to_plain() for identifier, detection in self.detections.items()
         }
-        if len(self.condition) > 1:
-            condition: str | list[str] = self.condition
+        # The parsed conditions reflect changes made by processing pipelines (e.g. added conditions)
+        conditions = [parsed_condition.condition for parsed_condition in self.parsed_condition]
+        if len(conditions) > 1:
+            condition: str | list[str] = conditions
         else:
-            condition = self.condition[0]
+            condition = conditions[0]
 
         return {
             **detections,
